@@ -315,20 +315,27 @@ class Ctx:
         try:
             for e in extra:
                 self.solver.add(e)
-            self.solver.push()
-            n = 0
-            for name, c in self.inputs.items():
-                if z3.is_real(c):
+            reals = [c for c in self.inputs.values() if z3.is_real(c)]
+            m = None
+            # 1st choice: dyadic values in generic position (non-zero, pairwise distinct): a replay on real numpy is then
+            # exact and not masked by coincidences (e.g. rotation 0, origin 0); 2nd choice: dyadic only
+            for generic in (True, False):
+                self.solver.push()
+                for n, c in enumerate(reals):
                     k = z3.Int(f"__dy{n}")
-                    n += 1
                     self.solver.add(c * denom == z3.ToReal(k))
-            self.solver.set("timeout", timeout_ms)
-            r = self.check()
-            m = self.solver.model() if r == z3.sat else None
-            self.solver.pop()
-            self.solver.set("timeout", self.timeout_ms)
-            if m is not None:
-                return m
+                if generic and len(reals) <= 24:
+                    for i, c in enumerate(reals):
+                        self.solver.add(c != 0)
+                        for c2 in reals[i + 1:]:
+                            self.solver.add(c != c2)
+                self.solver.set("timeout", timeout_ms // 3 if generic else timeout_ms)
+                r = self.check()
+                m = self.solver.model() if r == z3.sat else None
+                self.solver.pop()
+                self.solver.set("timeout", self.timeout_ms)
+                if m is not None:
+                    return m
             if self.check() == z3.sat:
                 return self.solver.model()
             return None
